@@ -21,8 +21,7 @@ theorem percentDecode_cons_ne (c : Nat) (rest : Bytes) (h : c ≠ 37) :
     percentDecode (c :: rest) = c :: percentDecode rest := by
   rw [percentDecode]
   intro a b r hc
-  simp at hc
-  exact h hc.1
+  exact absurd hc h
 
 theorem percentDecode_percentEncode (bs : Bytes) (h : ∀ b ∈ bs, b < 256) :
     percentDecode (percentEncode bs) = bs := by
@@ -348,13 +347,21 @@ theorem decode_eq_of_segs_ok (p : Parts)
             | _ => kSlash,
           heartbeat := 60, channelMax := 0, timeoutMs := none } p.query := by
   unfold decode
-  rcases hsegs with h | h | ⟨v, h⟩
-  · rw [h]; simp only [defaultOpts]; split <;> rfl
-  · rw [h]; simp only [defaultOpts]; split <;> rfl
-  · rw [h]
-    by_cases hv : v = []
-    · subst hv; simp only [defaultOpts]; split <;> simp
-    · simp only [defaultOpts, ne_eq, hv, not_false_eq_true, if_true]; split <;> simp
+  by_cases hu : (p.username ≠ [] ∨ p.password.isSome)
+  · rcases hsegs with h | h | ⟨v, h⟩
+    · rw [h]; simp only [defaultOpts, if_pos hu]
+    · rw [h]; simp only [defaultOpts, if_pos hu]
+    · rw [h]
+      by_cases hv : v = []
+      · subst hv; simp [defaultOpts, if_pos hu]
+      · simp [defaultOpts, hv, if_pos hu]
+  · rcases hsegs with h | h | ⟨v, h⟩
+    · rw [h]; simp only [defaultOpts, if_neg hu]
+    · rw [h]; simp only [defaultOpts, if_neg hu]
+    · rw [h]
+      by_cases hv : v = []
+      · subst hv; simp [defaultOpts, if_neg hu]
+      · simp [defaultOpts, hv, if_neg hu]
 
 theorem decode_extra_segments (p : Parts) (v w : Bytes) (more : List Bytes)
     (h : p.segs = some (v :: w :: more)) : decode p = .error .extraUrlPathSegments := by
@@ -374,5 +381,180 @@ theorem decode_ok_segs {p : Parts} {o : Opts} (h : decode p = .ok o) :
     | v :: w :: more, hs =>
       rw [decode_extra_segments p v w more hs] at h
       cases h
+
+/-! ## `openUrl` -/
+
+/-- The host `populate_host_and_port` settles on. -/
+def hostOf (p : Parts) : Bytes :=
+  if p.host = none ∨ p.host = some [] then kLocalhost else p.host.getD []
+
+/-- `openUrl` once the URL parsed and a host can be filled in. -/
+theorem openUrl_eq (allow : Bool) (p : Parts) (hp : p.parsed = true)
+    (hh : ¬((p.host = none ∨ p.host = some []) ∧ p.cannotBeABase = true)) :
+    openUrl allow p =
+      if p.scheme = kAmqp then
+        match decode p with
+        | .error e => .error e
+        | .ok o =>
+          if allow then
+            .ok { secure := false, host := hostOf p, port := p.port.getD 5672, auth := o.auth,
+                  vhost := o.vhost, heartbeat := o.heartbeat, channelMax := o.channelMax,
+                  timeoutMs := o.timeoutMs }
+          else .error .insecureUrl
+      else if p.scheme = kAmqps then
+        match decode p with
+        | .error e => .error e
+        | .ok o =>
+          .ok { secure := true, host := hostOf p, port := p.port.getD 5671, auth := o.auth,
+                vhost := o.vhost, heartbeat := o.heartbeat, channelMax := o.channelMax,
+                timeoutMs := o.timeoutMs }
+      else .error .invalidUrlScheme := by
+  have hn : ((p.host.isNone || decide (p.host = some [])) && p.cannotBeABase) = false := by
+    cases hc : p.cannotBeABase with
+    | false => simp
+    | true =>
+      simp only [Bool.and_true, Bool.or_eq_false_iff, decide_eq_false_iff_not]
+      rw [hc] at hh
+      simp only [and_true, not_or] at hh
+      refine ⟨?_, hh.2⟩
+      cases hhost : p.host with
+      | none => exact absurd hhost hh.1
+      | some _ => rfl
+  have hhost : (if (p.host.isNone || decide (p.host = some [])) = true then kLocalhost
+      else p.host.getD []) = hostOf p := by
+    unfold hostOf
+    cases p.host <;> simp
+  unfold openUrl
+  simp only [hp, Bool.not_true, Bool.false_eq_true, if_false, hn, hhost]
+  by_cases h1 : p.scheme = kAmqp
+  · simp only [if_pos h1]
+    cases decode p with
+    | error e => rfl
+    | ok o => cases allow <;> rfl
+  · simp only [if_neg h1]
+    by_cases h2 : p.scheme = kAmqps
+    · simp only [if_pos h2]
+      cases decode p with
+      | error e => rfl
+      | ok o => cases allow <;> rfl
+    · simp only [if_neg h2]
+
+theorem openUrl_ok_pre {allow : Bool} {p : Parts} {d : Decoded} (h : openUrl allow p = .ok d) :
+    p.parsed = true ∧ ¬((p.host = none ∨ p.host = some []) ∧ p.cannotBeABase = true) := by
+  unfold openUrl at h
+  cases hp : p.parsed with
+  | false => rw [hp] at h; simp at h
+  | true =>
+    refine ⟨rfl, ?_⟩
+    rintro ⟨h1, h2⟩
+    have : ((p.host.isNone || decide (p.host = some [])) && p.cannotBeABase) = true := by
+      rw [h2]; rcases h1 with h1 | h1 <;> simp [h1]
+    simp [this] at h
+
+theorem kHeartbeat_ne_kChannelMax : kHeartbeat ≠ kChannelMax := by decide
+theorem kHeartbeat_ne_kConnectionTimeout : kHeartbeat ≠ kConnectionTimeout := by decide
+theorem kChannelMax_ne_kConnectionTimeout : kChannelMax ≠ kConnectionTimeout := by decide
+
+theorem decode_vhost {p : Parts} {o : Opts} (h : decode p = .ok o) :
+    o.vhost = match p.segs with
+      | some (v :: _) => if v ≠ [] then percentDecode v else kSlash
+      | _ => kSlash := by
+  rw [decode_eq_of_segs_ok p (decode_ok_segs h)] at h
+  exact decodeQuery_vhost h
+
+/-- Everything a successful `openUrl` tells us. -/
+theorem openUrl_ok_full {allow : Bool} {p : Parts} {d : Decoded} (h : openUrl allow p = .ok d) :
+    ∃ o, decode p = .ok o ∧
+      ((p.scheme = kAmqp ∧ allow = true ∧
+          d = { secure := false, host := hostOf p, port := p.port.getD 5672, auth := o.auth,
+                vhost := o.vhost, heartbeat := o.heartbeat, channelMax := o.channelMax,
+                timeoutMs := o.timeoutMs }) ∨
+       (p.scheme = kAmqps ∧
+          d = { secure := true, host := hostOf p, port := p.port.getD 5671, auth := o.auth,
+                vhost := o.vhost, heartbeat := o.heartbeat, channelMax := o.channelMax,
+                timeoutMs := o.timeoutMs })) := by
+  obtain ⟨hp, hh⟩ := openUrl_ok_pre h
+  rw [openUrl_eq allow p hp hh] at h
+  by_cases h1 : p.scheme = kAmqp
+  · rw [if_pos h1] at h
+    cases hd : decode p with
+    | error e => rw [hd] at h; cases h
+    | ok o =>
+      rw [hd] at h
+      cases allow with
+      | false => cases h
+      | true =>
+        simp only [if_true, Except.ok.injEq] at h
+        exact ⟨o, rfl, Or.inl ⟨h1, rfl, h.symm⟩⟩
+  · rw [if_neg h1] at h
+    by_cases h2 : p.scheme = kAmqps
+    · rw [if_pos h2] at h
+      cases hd : decode p with
+      | error e => rw [hd] at h; cases h
+      | ok o =>
+        rw [hd] at h
+        simp only [Except.ok.injEq] at h
+        exact ⟨o, rfl, Or.inr ⟨h2, h.symm⟩⟩
+    · rw [if_neg h2] at h; cases h
+
+theorem openUrl_ok_inv {p : Parts} {d : Decoded} (h : openUrl true p = .ok d) :
+    ∃ o, decode p = .ok o ∧ d.host = hostOf p ∧
+      d.port = p.port.getD (if d.secure then 5671 else 5672) ∧ d.vhost = o.vhost ∧
+      (d.secure = true ↔ p.scheme = kAmqps) := by
+  obtain ⟨o, hdec, ⟨hs, _, rfl⟩ | ⟨hs, rfl⟩⟩ := openUrl_ok_full h
+  · refine ⟨o, hdec, rfl, rfl, rfl, ?_⟩
+    rw [hs]; simp [kAmqp_ne_kAmqps]
+  · refine ⟨o, hdec, rfl, rfl, rfl, ?_⟩
+    simp [hs]
+
+theorem openUrl_insecure_rejected {p : Parts} (d : Decoded) (h : openUrl true p = .ok d)
+    (hs : d.secure = false) : openUrl false p = .error .insecureUrl := by
+  obtain ⟨hp, hh⟩ := openUrl_ok_pre h
+  obtain ⟨o, hdec, ⟨hsch, _, rfl⟩ | ⟨hsch, rfl⟩⟩ := openUrl_ok_full h
+  · rw [openUrl_eq false p hp hh, if_pos hsch, hdec]; rfl
+  · cases hs
+
+theorem openUrl_secure_same {p : Parts} (d : Decoded) (h : openUrl true p = .ok d)
+    (hs : d.secure = true) : openUrl false p = .ok d := by
+  obtain ⟨hp, hh⟩ := openUrl_ok_pre h
+  obtain ⟨o, hdec, ⟨hsch, _, rfl⟩ | ⟨hsch, rfl⟩⟩ := openUrl_ok_full h
+  · cases hs
+  · rw [openUrl_eq false p hp hh, if_neg (hsch ▸ kAmqp_ne_kAmqps.symm), if_pos hsch, hdec]
+
+theorem openUrl_false_secure {p : Parts} (d : Decoded) (h : openUrl false p = .ok d) :
+    d.secure = true := by
+  obtain ⟨o, _, ⟨_, hf, _⟩ | ⟨_, rfl⟩⟩ := openUrl_ok_full h
+  · cases hf
+  · rfl
+
+theorem openUrl_pre_fail (allow : Bool) (p : Parts)
+    (h : ¬(p.parsed = true ∧ ¬((p.host = none ∨ p.host = some []) ∧ p.cannotBeABase = true))) :
+    openUrl allow p = .error .urlParseError := by
+  unfold openUrl
+  cases hp : p.parsed with
+  | false => simp
+  | true =>
+    have h' : (p.host = none ∨ p.host = some []) ∧ p.cannotBeABase = true := by
+      rw [hp] at h
+      simpa using h
+    have : ((p.host.isNone || decide (p.host = some [])) && p.cannotBeABase) = true := by
+      rw [h'.2]; rcases h'.1 with h1 | h1 <;> simp [h1]
+    simp [this]
+
+theorem openUrl_error_same {p : Parts} (e : Err) (h : openUrl true p = .error e) :
+    openUrl false p = .error e := by
+  by_cases hpre : p.parsed = true ∧ ¬((p.host = none ∨ p.host = some []) ∧ p.cannotBeABase = true)
+  · rw [openUrl_eq true p hpre.1 hpre.2] at h
+    rw [openUrl_eq false p hpre.1 hpre.2]
+    by_cases h1 : p.scheme = kAmqp
+    · rw [if_pos h1] at h ⊢
+      cases hd : decode p with
+      | error e' => rw [hd] at h; exact h
+      | ok o => rw [hd] at h; cases h
+    · rw [if_neg h1] at h ⊢
+      exact h
+  · rw [openUrl_pre_fail true p hpre] at h
+    rw [openUrl_pre_fail false p hpre]
+    exact h
 
 end AmqModel.Url
